@@ -200,4 +200,109 @@ theorem has_erase_self (q : List Entry) (f : Nat) : Ev.has (Ev.erase q f) f = fa
   intro x _ hx
   exact hx
 
+
+/-! ### the same with a second queue `r` that shares the wake-up list -/
+
+theorem owners_append (q r : List Entry) : owners (q ++ r) = owners q ++ owners r := by
+  simp [owners]
+
+theorem WOK.comm {q r : List Entry} {w : List Nat} (h : WOK (q ++ r) w) : WOK (r ++ q) w := by
+  refine ⟨?_, h.nw, ?_⟩
+  · have := h.nq
+    rw [owners_append] at this ⊢
+    exact (List.perm_append_comm.nodup_iff).mp this
+  · intro f hf
+    obtain ⟨e, he, h1, h2⟩ := h.reg f hf
+    exact ⟨e, by simpa [or_comm] using he, h1, h2⟩
+
+theorem WOK.notifyK_ctx {q r : List Entry} {w : List Nat} (h : WOK (q ++ r) w) (add : Bool) (k : Nat) :
+    WOK (notifyQ add k q ++ r) (notifyO k q ++ w) := by
+  obtain ⟨s1, s2, s3⟩ := notifyO_spec add k q
+  have hnq : (owners q).Nodup := by
+    have := h.nq; rw [owners_append] at this; exact (List.nodup_append.mp this).1
+  refine ⟨by rw [owners_append, owners_notifyQ, ← owners_append]; exact h.nq, ?_, ?_⟩
+  · refine List.nodup_append.mpr ⟨s3.nodup hnq, h.nw, ?_⟩
+    intro a ha b hb hab
+    subst hab
+    obtain ⟨⟨x, hx, h1, h2⟩, _⟩ := s1 a ha
+    obtain ⟨y, hy, h3, h4⟩ := h.reg a hb
+    have := entry_unique h.nq (List.mem_append_left r hx) hy (by rw [h1, h3])
+    subst this
+    rw [h2] at h4; cases h4
+  · intro f hf
+    simp only [List.mem_append] at hf
+    rcases hf with hf | hf
+    · obtain ⟨e, he, h1, h2⟩ := (s1 f hf).2
+      exact ⟨e, List.mem_append_left _ he, h1, h2⟩
+    · obtain ⟨e, he, h1, h2⟩ := h.reg f hf
+      rcases List.mem_append.mp he with he | he
+      · exact ⟨e, List.mem_append_left _ (s2 e he h2), h1, h2⟩
+      · exact ⟨e, List.mem_append_right _ he, h1, h2⟩
+
+theorem WOK.notify_ctx {q r : List Entry} {w : List Nat} (h : WOK (q ++ r) w) (add : Bool) (n : Nat) :
+    WOK (Ev.notify add n q ++ r) (Ev.notifyOwners add n q ++ w) := h.notifyK_ctx add _
+
+theorem WOK.erase_ctx {q r : List Entry} {w : List Nat} (h : WOK (q ++ r) w) (f : Nat) :
+    WOK (Ev.erase q f ++ r) (w.filter (· != f)) := by
+  refine ⟨?_, h.nw.filter _, ?_⟩
+  · have := h.nq
+    rw [owners_append] at this ⊢
+    exact (List.Sublist.append (owners_erase_sublist q f) (List.Sublist.refl _)).nodup this
+  · intro g hg
+    simp only [List.mem_filter, bne_iff_ne, ne_eq] at hg
+    obtain ⟨e, he, h1, h2⟩ := h.reg g hg.1
+    refine ⟨e, ?_, h1, h2⟩
+    rcases List.mem_append.mp he with he | he
+    · apply List.mem_append_left
+      simp only [Ev.erase, List.mem_filter, bne_iff_ne, ne_eq]
+      exact ⟨he, by rw [h1]; exact hg.2⟩
+    · exact List.mem_append_right _ he
+
+theorem WOK.drop_ctx {q r : List Entry} {w : List Nat} (h : WOK (q ++ r) w) (f : Nat) :
+    WOK (Ev.drop q f ++ r) (Ev.dropOwners q f ++ w.filter (· != f)) := by
+  unfold Ev.drop Ev.dropOwners
+  split
+  · exact (h.erase_ctx f).notify_ctx _ 1
+  · simpa using h.erase_ctx f
+
+theorem has_append (q r : List Entry) (f : Nat) : Ev.has (q ++ r) f = (Ev.has q f || Ev.has r f) := by
+  simp [Ev.has]
+
+theorem WOK.append_ctx {q r : List Entry} {w : List Nat} (h : WOK (q ++ r) w) (e : Entry)
+    (hf : Ev.has (q ++ r) e.owner = false) : WOK ((q ++ [e]) ++ r) w := by
+  have h1 : WOK ((q ++ r) ++ [e]) w := h.append e hf
+  have h2 : WOK (r ++ [e] ++ q) w := by
+    have := WOK.comm (q := q) (r := r ++ [e]) (by simpa [List.append_assoc] using h1)
+    simpa [List.append_assoc] using this
+  have := WOK.comm (q := r) (r := [e] ++ q) (by simpa [List.append_assoc] using h2)
+  -- ([e] ++ q) ++ r  vs  (q ++ [e]) ++ r: swap inside
+  refine ⟨?_, h.nw, ?_⟩
+  · have hn := this.nq
+    simp only [owners, List.map_append, List.map_cons, List.map_nil] at hn ⊢
+    refine (List.Perm.nodup_iff ?_).mp hn
+    exact List.Perm.append_right _ List.perm_append_comm
+  · intro g hg
+    obtain ⟨x, hx, a, b⟩ := this.reg g hg
+    refine ⟨x, ?_, a, b⟩
+    simp only [List.mem_append, List.mem_singleton, List.mem_cons, List.not_mem_nil, or_false] at hx ⊢
+    rcases hx with (hx | hx) | hx
+    · exact Or.inl (Or.inr hx)
+    · exact Or.inl (Or.inl hx)
+    · exact Or.inr hx
+
+theorem WOK.listen_ctx {q r : List Entry} {w : List Nat} (h : WOK (q ++ r) w) (f : Nat)
+    (hf : Ev.has (q ++ r) f = false) : WOK (Ev.listen q f ++ r) w := h.append_ctx { owner := f } hf
+
+theorem WOK.setTask_ctx {q r : List Entry} {w : List Nat} (h : WOK (q ++ r) w) (f t : Nat) :
+    WOK (Ev.setTask q f t ++ r) w := by
+  refine ⟨by rw [owners_append, owners_setTask, ← owners_append]; exact h.nq, h.nw, ?_⟩
+  intro g hg
+  obtain ⟨x, hx, h1, h2⟩ := h.reg g hg
+  rcases List.mem_append.mp hx with hx | hx
+  · refine ⟨if x.owner == f then { x with task := some t } else x, ?_, ?_, ?_⟩
+    · exact List.mem_append_left _ (List.mem_map.mpr ⟨x, hx, rfl⟩)
+    · split <;> exact h1
+    · split <;> exact h2
+  · exact ⟨x, List.mem_append_right _ hx, h1, h2⟩
+
 end ALock
